@@ -419,6 +419,10 @@ class KexGroupExchange(KexDH):
 
             g = int(binascii.hexlify(payload[ptr:ptr + g_len]), 16)
             ptr += g_len
+
+            # The message consists of exactly these two fields; if their lengths do not add up to the payload, it is malformed.
+            if ptr != len(payload):
+                raise ValueError('modulus and generator lengths (%u, %u) do not match the payload length (%u)' % (p_len, g_len, len(payload)))
         except (struct.error, ValueError):
             raise KexDHException("Error while parsing modulus and generator during GEX init: %s" % str(traceback.format_exc())) from None
 
